@@ -248,15 +248,32 @@ Definition spec_assumptions_no_output (outputs : list pred) (fs : list aformula_
 Definition spec_roles_supported (fs : list aformula_annot) : bool :=
   forallb (fun a => match an_role a with RAssumption | RSpec => true | _ => false end) fs.
 
-(* ---------- the empty completed definitions of missing output predicates (/repo 70e6ace) ----------
+(* ---------- the empty completed definitions of missing output predicates (/repo 70e6ace, 18b2e85) ----------
    `forall V1..Vn (p(V1..Vn) <-> #false)`: atomic_formula_from + the completed definition with no
    partial definition, i.e. exactly what completion.rs builds for a predicate that occurs in rule
    bodies only; for every output predicate (user-guide order) that is not a predicate of the
-   completed theory (IndexSet::difference) *)
+   completed theory (IndexSet::difference) and - since /repo 18b2e85 - occurs in the task
+   (the `.filter(..)` with `occurring_predicates.contains`): an output predicate that occurs on NEITHER
+   side gets no definition (the formula's size is proportional to the declared arity: C16) *)
 Definition empty_definition (p : pred) : formula :=
   Completion.complete_definition (Completion.atomic_formula_from p, []).
-Definition missing_output_definitions (outputs : list pred) (th : theory) : theory :=
-  map empty_definition (iset_diff pred_dec outputs (theory_predicates th)).
+Definition missing_output_definitions (outputs occurring : list pred) (th : theory) : theory :=
+  map empty_definition
+      (filter (fun p => memb pred_dec p occurring) (iset_diff pred_dec outputs (theory_predicates th))).
+
+(* `occurring_predicates` of ExternalEquivalenceTask::decompose (/repo 18b2e85): the predicates of
+   the specification side - program.predicates() mapped to fol predicates (an injective map of an
+   IndexSet: program_preds) resp. Specification::predicates() - chained with the predicates of the
+   program, collected into an IndexSet.  The code computes it once, after the private predicates and
+   before the checks, and the closure `theory_translate` captures it; it is a total function of the
+   task (no panic, no effect), so [theory_translate] below reads it off the task. *)
+Definition task_occurring_predicates (t : ext_task) : list pred :=
+  iset_extend pred_dec
+    (match et_specification t with
+     | inl p => program_preds p
+     | inr s => spec_predicates s
+     end)
+    (program_preds (et_program t)).
 
 Section Components.
 Variable is_tight : program -> bool.
@@ -361,12 +378,14 @@ Definition c_placeholders_single_sorted (t : ext_task) : bool :=
 
 (* theory_translate; None = panic (expect).  Since /repo 70e6ace (finding F17) every output
    predicate of the user guide that does not occur in the completed theory receives the empty
-   completed definition, appended after the completion and before the simplification. *)
+   completed definition, appended after the completion and before the simplification; since
+   /repo 18b2e85 only if it occurs on some side of the task (task_occurring_predicates). *)
 Definition theory_translate (t : ext_task) (m : placeholders) (p : program) : option theory :=
   match completion (rp_theory m (tau_star p)) (ug_input_predicates (et_user_guide t)) with
   | None => None
   | Some th0 =>
-      let th := th0 ++ missing_output_definitions (ug_output_predicates (et_user_guide t)) th0 in
+      let th := th0 ++ missing_output_definitions (ug_output_predicates (et_user_guide t))
+                                                   (task_occurring_predicates t) th0 in
       Some (if et_simplify t then map simp_classic th else th)
   end.
 
@@ -444,4 +463,5 @@ End Components.
    head_predicate control_translate rename_predicates ug_input_predicates ug_output_predicates
    ug_public_predicates ug_placeholders spec_predicates c_tight c_no_private_recursion c_no_input_in_head
    c_io_disjoint c_ug_assumptions_inputs_only c_spec_assumptions_no_output c_placeholders_single_sorted
-   task_spec_private task_prog_private iset_inter empty_definition missing_output_definitions *)
+   task_spec_private task_prog_private iset_inter empty_definition missing_output_definitions
+   task_occurring_predicates *)
